@@ -81,7 +81,9 @@ def bracket_positions(call):
     for n in R.walk(ex):
         if isinstance(n, R.Num): L[n.name] = n.v
     leaves = R.leaf_axes(ex[0])
-    return [L[n] for n, b in leaves if b], [L[n] for n, b in leaves]
+    # aligned tensor: one dimension per bracketed axis and per DISTINCT un-bracketed axis (a repeated name is the diagonal)
+    distinct = list(dict.fromkeys(n for n, b in leaves if not b))
+    return [L[n] for n, b in leaves if b], [L[n] for n in distinct] + [L[n] for n, b in leaves if b]
 
 
 def work(chunk):
@@ -128,11 +130,15 @@ def work(chunk):
                         bsz = None
                     if not isinstance(axis, tuple) or not all(type(a) is int for a in axis): viol(call, "red", f"axis={axis!r} is not a tuple of int")
                     elif bsz is not None:
-                        if int(np.prod(shp)) != x.size: viol(call, "red", f"function received a tensor of shape {shp}, not the whole input of {x.size} elements")
+                        if int(np.prod(shp)) != int(np.prod(allsz)): viol(call, "red", f"function received a tensor of shape {shp}, the aligned tensor has {int(np.prod(allsz))} elements")
                         elif sorted(shp[a] for a in axis) != sorted(bsz): viol(call, "red", f"axis={axis} selects lengths {[shp[a] for a in axis]} of {shp}, bracketed axes have lengths {bsz}")
                         elif len(set(axis)) != len(axis): viol(call, "red", f"axis={axis} has duplicates")
             elif got[0] == "value" and exp[0] == "illformed":
                 hist["value/illformed"] += 1
+            elif got[0] == "raise" and exp[0] == "value":
+                if got[1] in ("CallOperationError", "AssertionError"):
+                    viol(call, "red", f"a well-behaved numpy reduction made the call fail with {got[1]} although the loop semantics gives {np.asarray(exp[1]).ravel()[:4].tolist()}")
+                else: hist["rejected-valid:" + got[1]] += 1
             # keyword-only option: all histories of <= 3 calls over different values (cache hits included)
             if exp[0] == "value" and got[0] == "value":
                 vals = [2, 2.0, 3, True]
@@ -246,6 +252,61 @@ def name_clash():
     return out
 
 
+def same_name_functions():
+    """different functions that share module and qualified name (a def re-run in a notebook cell, two lambdas): every order of adapting them,
+    then each called with ITS keyword-only option; the option must reach the function verbatim and can never be taken for an axis size"""
+    import einx
+    out = []
+    x = np.arange(6.0).reshape(2, 3)
+
+    def make(kind):
+        if kind == "plain":
+            def f(t, axis): REC.append(("f", np.shape(t), axis, {})); return np.sum(t, axis=axis)
+        elif kind == "scale":
+            def f(t, axis, *, scale=1): REC.append(("f", np.shape(t), axis, {"scale": scale})); return np.sum(t, axis=axis) * scale
+        else:
+            def f(t, axis, *, gain=1): REC.append(("f", np.shape(t), axis, {"gain": gain})); return np.sum(t, axis=axis) + gain
+        return f
+
+    def make_e(kind):
+        if kind == "plain":
+            def g(a, b): REC.append(("g", None, None, {})); return a + b
+        elif kind == "scale":
+            def g(a, b, *, scale=1): REC.append(("g", None, None, {"scale": scale})); return (a + b) * scale
+        else:
+            def g(a, b, *, gain=1): REC.append(("g", None, None, {"gain": gain})); return a + b + gain
+        return g
+    n = 0
+    for order in itertools.permutations(["plain", "scale", "gain"]):
+        adapted = {k: einx.numpy.adapt_numpylike_reduce(make(k)) for k in order}
+        adapted_e = {k: einx.numpy.adapt_numpylike_elementwise(make_e(k)) for k in order}
+        for k in order:
+            for v in (3, 3.0):
+                kw = {} if k == "plain" else {k: v}
+                REC.clear(); n += 1
+                try:
+                    r = adapted[k]("a [b]", x, **kw)
+                    exp = x.sum(1) * (v if k == "scale" else 1) + (v if k == "gain" else 0)
+                    if not np.array_equal(r, exp) or (REC and REC[0][3] != kw): out.append((f"reduce order={order} fn={k} {kw}", f"result {np.asarray(r).tolist()} / received {REC[0][3] if REC else None}, expected {exp.tolist()} / {kw}"))
+                except Exception as e:  # noqa
+                    out.append((f"reduce order={order} fn={k} {kw}", f"raised {type(e).__name__}"))
+                REC.clear(); n += 1
+                try:
+                    r = adapted_e[k]("a b, b", x, np.ones(3), **kw)
+                    exp = (x + 1) * (v if k == "scale" else 1) + (v if k == "gain" else 0)
+                    if not np.array_equal(r, exp) or (REC and REC[0][3] != kw): out.append((f"elementwise order={order} fn={k} {kw}", f"result differs / received {REC[0][3] if REC else None}"))
+                except Exception as e:  # noqa
+                    out.append((f"elementwise order={order} fn={k} {kw}", f"raised {type(e).__name__}"))
+        # an axis named like the OTHER function's option is an ordinary axis for this function
+        try:
+            r = adapted["scale"]("a [gain]", x)
+            if not np.array_equal(r, x.sum(1)): out.append((f"reduce order={order} axis named gain", "wrong result"))
+        except Exception as e:  # noqa
+            out.append((f"reduce order={order} axis named gain", f"raised {type(e).__name__}"))
+        n += 1
+    return n, out
+
+
 def gen_unit(u):
     ops, Rk, k = u
     return [c.to_json() for c in gen.corpus(ops, Rk, k, ("distinct", "all2"))]
@@ -273,6 +334,10 @@ def run(ctx):
     for h, bad in runner.pmap(work, chunks, chunksize=1):
         hist.update(h)
         for sig, what, rp in bad: ctx.violation(sig, what, rp)
+    nsn, sn = same_name_functions()
+    hist["same-name-function-calls"] = nsn
+    for where, what in sn:
+        ctx.violation({"kind": "same-name", "where": where}, f"functions sharing module and qualified name, {where}: {what}", {"same_name": where})
     for desc, what in name_clash():
         ctx.violation({"kind": "name-clash", "desc": desc, "got": what}, f"axis named like a keyword-only parameter in {desc!r}: expected SemanticError, got {what}", {"clash": desc})
     ctx.counters.update(hist)
@@ -289,6 +354,8 @@ def run(ctx):
 
 
 def replay(d):
+    if "same_name" in d:
+        n, sn = same_name_functions(); print(sn[:5]); return any(w == d["same_name"] for w, _ in sn)
     if "clash" in d:
         r = name_clash(); print(r); return any(x[0] == d["clash"] for x in r)
     j = dict(d["call"]); j["deep"] = True
